@@ -101,14 +101,17 @@ def real_listen(loop, proto: str, line: str, hint: dict | None) -> dict:
             async with gw:
                 pass
         try:
-            loop.run_until_complete(cycle())
+            loop.run_until_complete(asyncio.wait_for(cycle(), 5))
         except BaseException as err:  # noqa: BLE001
             return {"k": "other", "cls": "context cycle: " + type(err).__name__}
     gw.transport.lines.append(line)
     gen = gw.listen()
     try:
-        msg = loop.run_until_complete(gen.__anext__())
+        # bounded: a listen step that neither yields nor raises although a line is there would wait for ever
+        msg = loop.run_until_complete(asyncio.wait_for(gen.__anext__(), 2))
         return msg_result(msg)
+    except (asyncio.TimeoutError, TimeoutError):
+        return {"k": "other", "cls": "blocked: the line was consumed without a message or an error"}
     except InvalidMessageError as err:
         # the decoder's rejection wraps the schema's ValidationError; a handler may also refuse a
         # decoded message as invalid (e.g. an unusable version payload): that line WAS accepted
@@ -133,7 +136,7 @@ def real_send(loop, proto: str, m: dict) -> dict:
     gw.transport.write = write
     try:
         msg = Message(m["n"], m["c"], m["cmd"], m["ack"], int(text(m["t"])), text(m["p"]))
-        loop.run_until_complete(gw.send(msg, message_buffer=False))
+        loop.run_until_complete(asyncio.wait_for(gw.send(msg, message_buffer=False), 5))
     except InvalidMessageError:
         return {"k": "invalid"}
     except BaseException as err:  # noqa: BLE001
